@@ -273,6 +273,24 @@ def fill(claim, na):
         "Trusted: k-mers returned by a SimilarityRule are valid; create_kmers() validates symbol codes (C03).",
         "DESIGN.md section 2, C10",
     )
+    claim(
+        "C14",
+        "per-axis range-guard analysis of unchecked cell-array accesses, C type and arithmetic of "
+        "allocation sizes, dominance of shape/finite/selection checks (custom ast analysis on the "
+        "lowered celllist.pyx with its C declarations)",
+        "Decides guard/axis agreement and allocation bounds: every cells[a,b,c]/cell_length[a,b,c] "
+        "access of the neighbour scan is enclosed by 0 <= idx < cells.shape[d] with d the axis the "
+        "index is used on; both grids have one shape spanning min..max of the stored coordinates, "
+        "which are checked finite on both selection branches before any cell index is computed; "
+        "the selection mask length is compared with the atom count before the fill loop; "
+        "non-finite query points are skipped; the result buffer holds (2r+1)^3 cells of the "
+        "maximal cell length for the largest radius and that maximum follows every insertion "
+        "(known finding: the size is computed in a 32-bit C int and overflows for large radii); "
+        "image indices are folded back before the mask is written; per-query radii are shape- and "
+        "sign-checked. Not decided: exactness of the returned neighbour sets.",
+        "Trusted: constructor invariant (stored atoms lie inside the grid).",
+        "DESIGN.md section 2, C14",
+    )
     for p in ["C08", "C08", "C09",
-              "C11", "C14", "C15", "C16", "C19"]:
+              "C11", "C15", "C16", "C19"]:
         na(p, PENDING)
